@@ -243,7 +243,76 @@ def bounded(tier, seed, procs):
             b3.case(name, sample=name)
             if r != ("val", want):
                 b3.fail(Failure("special", f"case={name}", dict(kind="special", case=name), expected=str(want), actual=outcome.describe(r), functions=["primitives"]))
-    return [b1, b2, b3]
+    return [b1, b2, b3, b_class_histories(tier)]
+
+
+def b_class_histories(tier):
+    """Hierarchies of undecorated subclasses below a decorated class, touched in every order: what one class's instances did before
+    (hash, ==, dict key) must not influence another class's equality."""
+    import pymbolic.primitives as p
+    b = BoundedRun("class-touch-orders", rule="fresh hierarchies Base(decorated) <- Plain(undecorated, adds nothing) <- Ext(adds an init arg through __getinitargs__), "
+                   "Base <- Ext2(adds an init arg directly), with Base a user dataclass node and with Base = Variable: for every order in which the classes are first "
+                   "touched (hash, ==, dict key on two of its instances) and every pair of instances of every class (differing in one init arg or in none): == agrees with "
+                   "'same class and equal init args', both ways; equal => equal hash and same dict key; also inside a Sum", bound="2 base kinds x 24 touch orders x 4 classes x 6 pairs",
+                   functions=["generated __eq__/__hash__ (non-dataclass subclass branch)", "Expression.__eq__"])
+
+    def build(kind):
+        with warnings.catch_warnings():
+            warnings.simplefilter("ignore")
+            if kind == "user":
+                @p.expr_dataclass()
+                class Base(p.Expression):
+                    child: p.ExpressionT
+                    tag: str
+                base_args = (p.Variable("c"), "t")
+                names = ("child", "tag")
+            else:
+                Base = p.Variable
+                base_args = ("v",)
+                names = ("name",)
+
+            class Plain(Base):
+                pass
+
+            def mk_ext(parent, nm):
+                class Ext(parent):
+                    init_arg_names = (*names, "more")
+
+                    def __init__(self, *a):
+                        for n_, v_ in zip(self.init_arg_names, a):
+                            object.__setattr__(self, n_, v_)
+
+                    def __getinitargs__(self):
+                        return tuple(getattr(self, n_) for n_ in self.init_arg_names)
+                Ext.__name__ = Ext.__qualname__ = nm
+                return Ext
+            Ext, Ext2 = mk_ext(Plain, "Ext"), mk_ext(Base, "Ext2")
+        insts = {Base: [Base(*base_args), Base(*base_args)], Plain: [Plain(*base_args), Plain(*base_args)],
+                 Ext: [Ext(*base_args, "a"), Ext(*base_args, "a"), Ext(*base_args, "b")], Ext2: [Ext2(*base_args, "a"), Ext2(*base_args, "a"), Ext2(*base_args, "b")]}
+        return [Base, Plain, Ext, Ext2], insts
+
+    def key(o):
+        return (type(o), o.__getinitargs__() if hasattr(o, "__getinitargs__") and "init_arg_names" in type(o).__dict__ else
+                tuple(getattr(o, f) for f in (("child", "tag") if hasattr(o, "child") else ("name",))))
+    with warnings.catch_warnings():
+        warnings.simplefilter("ignore")
+        for kind in ("user", "Variable"):
+            for order in itertools.permutations(range(4)):
+                classes_, insts = build(kind)
+                for ci in order:        # first touches, in this order
+                    a, c = insts[classes_[ci]][0], insts[classes_[ci]][-1]
+                    outcome.run(lambda: (hash(a), a == c, {a: 1}.get(c)))
+                for k in classes_:
+                    for a, c in itertools.combinations(insts[k], 2):
+                        exp = key(a) == key(c)
+                        r = outcome.run(lambda: (a == c, c == a, hash(a) == hash(c), c in {a: 1}, p.Sum((a, 1)) == p.Sum((c, 1))))
+                        b.case((kind, order, k.__name__, repr(key(a)[1]), repr(key(c)[1])), sample=dict(base=kind, order=list(order), cls=k.__name__))
+                        ok = r[0] == "val" and r[1][0] == exp and r[1][1] == exp and r[1][4] == exp and (not exp or (r[1][2] and r[1][3])) and (exp or not r[1][3])
+                        if not ok:
+                            b.fail(Failure("class-touch-orders", f"base={kind} order={order} cls={k.__name__} a={key(a)[1]!r} b={key(c)[1]!r} spec_equal={exp}",
+                                           dict(kind="touch", base=kind, order=list(order), cls=k.__name__), expected=f"== is {exp}", actual=outcome.describe(r)[:200],
+                                           functions=["generated __eq__/__hash__"]))
+    return b
 
 
 def _rebuild(a):
